@@ -168,9 +168,10 @@ func camel(s string) string {
 }
 
 type FileSpec struct {
-	Name  string
-	Enums []*d.EnumDescriptorProto
-	Msgs  []*M
+	Name      string
+	Enums     []*d.EnumDescriptorProto
+	Msgs      []*M
+	GoPackage string // go_package option (most corpus files have none: their Go import path is ".")
 }
 
 func enum(name string, vals ...string) *d.EnumDescriptorProto {
@@ -190,6 +191,9 @@ func (fs *FileSpec) build() *d.FileDescriptorProto {
 		Options:    &d.FileOptions{},
 	}
 	proto.SetExtension(file.Options, gogoproto.E_GoprotoGettersAll, B(false))
+	if fs.GoPackage != "" {
+		file.Options.GoPackage = S(fs.GoPackage)
+	}
 	file.EnumType = fs.Enums
 	sci := &d.SourceCodeInfo{}
 	for mi, m := range fs.Msgs {
